@@ -16,7 +16,7 @@ import z3
 from . import model as M
 from .model import Obj
 from .source import ClassInfo, FuncInfo, Repo, eval_const
-from .values import (NORMAL, Brk, Builtin, CellRef, Cls, Cont, DictC, Fn, Kw, Lam, ListC, Mod, ObjC,
+from .values import (NORMAL, Brk, Builtin, CellRef, Cls, Cont, DictC, Fn, Kw, KwD, Lam, ListC, Mod, ObjC,
                      Obligation, Raised, Ret, State, T, Tup, Unsupported)
 
 MUTATORS = {"append", "insert", "extend", "sort", "add_error", "add_errors", "update", "add"}
@@ -601,6 +601,13 @@ class Exec:
         return out
 
     def dict_snap(self, v: Any, st: State) -> Any:
+        if isinstance(v, KwD):
+            if v.rest is not None:
+                raise Unsupported("**kwargs with an opaque rest used as a dict")
+            d = self.empty_dict_term(st, "kw")
+            for kk, kv in v.items:
+                d = self.dict_store(st, d, M.mk_str(kk), self.term(kv, st), "kw")
+            return d
         if isinstance(v, CellRef):
             c = st.cells[v.id]
             if isinstance(c, DictC):
@@ -1276,6 +1283,11 @@ class Exec:
                     if k.arg is None:
                         if isinstance(v, Kw):
                             kwrest = v
+                        elif isinstance(v, KwD):
+                            for kk, kv in v.items:
+                                kws[kk] = kv
+                            if v.rest is not None:
+                                kwrest = v.rest
                         else:
                             raise Unsupported("** of non-kwargs value")
                     else:
@@ -1313,7 +1325,7 @@ class Exec:
                 node: Any = None) -> List[Tuple[State, Any]]:
         info = f.info
         con = self.contracts.lookup(info, self)
-        if con is not None and not (self.current_info is info and self.call_depth == 0):
+        if con is not None:
             return self.contracts.apply(self, con, info, f.bound, pos, kws, kwrest, st)
         if con is None and not self.contracts.is_transparent(info):
             raise Unsupported(f"call of {info.relpath}:{info.qualname} which has neither a contract nor "
@@ -1383,12 +1395,7 @@ class Exec:
                 st, val = r[0]
                 env[k] = val
             elif isinstance(v, tuple) and v and v[0] == "kwdict":
-                if v[2] is not None:
-                    raise Unsupported("explicit keywords plus forwarded **kwargs captured together")
-                d = self.empty_dict_term(st, "kw")
-                for kk, kv in v[1].items():
-                    d = self.dict_store(st, d, M.mk_str(kk), self.term(kv, st), "kw")
-                env[k] = self.new_cell(st, DictC(d))
+                env[k] = KwD(tuple(v[1].items()), v[2])
         st.env.update(env)
         self.call_depth += 1
         try:
